@@ -199,13 +199,23 @@ class PortsConc(BaseEngine):
         return {'prop': prop, 'kind': kind, 'n_sub': n_sub,
                 'sub_kinds': [pick(rng, ('echo', 'locked_old', 'locked_new')) for _ in range(n_sub)],
                 'senders': senders, 'receivers': receivers, 'mutate_after_send': rng.random() < 0.7,
-                'chunks': [rng.randint(1, 4) for _ in range(8)], 'pq_whole': rng.random() < 0.5,
+                'chunks': [rng.randint(1, 4) for _ in range(8)], 'pq_whole': rng.random() < 0.5, 'pq_batch': [pick(rng, (1, 1, 2, 3, 4)) for _ in range(3)],
                 'sleep_time': pick(rng, (1e-4, 1e-3, 1e-2, 0.5)), 'start_time': pick(rng, (0.0, 100.0, 1.7e9)),
                 'sched': sched, 'sched_seed': derive(prop, seed, idx, 'sched'), 'decisions': [], 'total': total}
 
     def gen_raw(self, prop, seed, idx, wire, rng):
-        """Plan for C05 mode B: a driver thread feeds `wire` to a ParserQueue in chunks, 1-2 consumers."""
+        """Plan for C05 mode B: a driver thread feeds `wire` to a ParserQueue in chunks, 1-2 consumers;
+        or (every third) several producers each feeding whole encodings, several per put_bytes call."""
         base = self.gen(prop, seed, idx, 'quick')
+        if rng.random() < 0.35:
+            base['kind'] = 'pq'
+            base['pq_whole'] = True
+            if len(base['senders']) < 2:
+                base['senders'].append([[pick(rng, MSG_SHAPES), rng.randrange(128)] for _ in range(rng.randint(2, 5))])
+            for r in base['receivers']:
+                for op in r:
+                    op[1] = -1
+            return base
         base['kind'] = 'pq_raw'
         base['wire'] = list(wire)
         base['senders'] = [[]]
@@ -378,14 +388,26 @@ class PortsConc(BaseEngine):
                     pos += size
                 record('S0', 'put_bytes', sched.total_steps, len(data))
             else:
-                # whole messages only: put(msg) as the rtmidi callback does, or put_bytes(one encoding)
-                for seq, m in enumerate(msgs):
-                    sent.append((si, seq, m.copy(), sched.total_steps, m))
-                    if whole and (seq + si) % 2 == 0:
-                        inv, _ = guarded(f'S{si}', 'put_bytes', port._queue.put_bytes, m.bytes())
+                # whole messages only: put(msg) as the rtmidi callback does, or put_bytes(one or several
+                # complete encodings in one call)
+                batch = plan.get('pq_batch') or [1]
+                seq = 0
+                bi = si
+                while seq < len(msgs):
+                    n = max(1, batch[bi % len(batch)])
+                    bi += 1
+                    group = msgs[seq:seq + n]
+                    for j, m in enumerate(group):
+                        sent.append((si, seq + j, m.copy(), sched.total_steps, m))
+                    if whole and (n > 1 or (seq + si) % 2 == 0):
+                        data = [b for m in group for b in m.bytes()]
+                        inv, _ = guarded(f'S{si}', 'put_bytes', port._queue.put_bytes, data)
+                        record(f'S{si}', 'put_bytes', inv, (si, seq, len(group)))
                     else:
-                        inv, _ = guarded(f'S{si}', 'put', port._queue.put, m)
-                    record(f'S{si}', 'put', inv, (si, seq))
+                        for j, m in enumerate(group):
+                            inv, _ = guarded(f'S{si}', 'put', port._queue.put, m)
+                            record(f'S{si}', 'put', inv, (si, seq + j))
+                    seq += len(group)
             done['senders'] += 1
 
         def target(tgt):
